@@ -84,16 +84,20 @@ func applyServiceExtends(ctx context.Context, name string, services map[string]a
 		processor PostProcessor
 	)
 
+	basePost := post
 	if file != nil {
 		refFilename, ok := file.(string)
 		if !ok {
 			return nil, fmt.Errorf("services.%s.extends.file must be a string", name)
 		}
 		services, processor, err = getExtendsBaseFromFile(ctx, name, ref, filename, refFilename, opts, tracker)
-		post = append(post, processor)
 		if err != nil {
 			return nil, err
 		}
+		// the !reset and !override tags of a file apply to the services this file defines: those of the
+		// referenced file while its own extends are resolved, not to the extending service (which may bear
+		// the same name as a service of the referenced file), and not the other way round
+		basePost = []PostProcessor{processor}
 		// the base service, and the services it extends, are defined by the referenced file
 		ctx = context.WithValue(ctx, consts.ComposeFileKey{}, refFilename)
 	} else {
@@ -109,7 +113,7 @@ func applyServiceExtends(ctx context.Context, name string, services map[string]a
 	}
 
 	// recursively apply `extends`
-	base, err = applyServiceExtends(ctx, ref, services, opts, tracker, post...)
+	base, err = applyServiceExtends(ctx, ref, services, opts, tracker, basePost...)
 	if err != nil {
 		return nil, err
 	}
